@@ -18,7 +18,7 @@ ENGINES = [
      "E1: controlled scheduler (real threads, one baton) + stateless DFS over schedules with iterative "
      "preemption bounding; line-level points in the in-memory backends, SQL-statement points in the SQLite ones",
      "serves_properties": []},
-    {"name": "crash", "path": "vf/crash.py", "kind_free_text":
+    {"name": "crash", "path": "vf/props/c03.py", "kind_free_text":
      "E4: crash-point enumeration (before/after every backend effect) + recovery + drain",
      "serves_properties": []},
 ]
@@ -47,9 +47,9 @@ CHECKS = {
         design_ref="§2 C04",
     ),
     "C05": dict(
-        engine="enum+sched",
-        technique="exhaustive enumeration of a value/exception catalogue x serializer x backend x externalisation threshold through the real run()/result path + deviation-bounded schedule exploration of a reader polling status/result against the finishing worker",
-        text="Values: 28 results (scalars incl. NaN, -0.0, 2^63, unicode, strings straddling the threshold, nested lists/dicts, Enum/IntEnum) and 10 exceptions (builtin with 0-2 args, user-defined, RetryError, PynencError subclass with fields) x {Json, JsonPickle, Pickle} x {memory, SQLite} x 3 (7) thresholds: produced by a real task body via run(), read by a fresh client-side invocation object (another app object for SQLite); SUCCESS must come with an equal value (type-, NaN-, signed-zero-aware), FAILED with the same exception class and args; at REGISTERED and PENDING get_final_result must raise. Schedules: reader (status, then final result, 3-4 polls) against the worker for success / externalised success / failure / retry-then-success, all schedules with <= 2 (3) deviations, line points incl. the in-memory data store, SQL-statement points for SQLite.",
+        engine="enum+sched+crash",
+        technique="exhaustive enumeration of a value/exception catalogue x serializer x backend x externalisation threshold through the real run()/result path + deviation-bounded schedule exploration of a reader polling status/result against the finishing worker + crash-point enumeration (worker process dies before/after every backend effect) with the reader oracle evaluated by a surviving process",
+        text="Values: 28 results (scalars incl. NaN, -0.0, 2^63, unicode, strings straddling the threshold, nested lists/dicts, Enum/IntEnum) and 10 exceptions (builtin with 0-2 args, user-defined, RetryError, PynencError subclass with fields) x {Json, JsonPickle, Pickle} x {memory, SQLite} x 3 (7) thresholds: produced by a real task body via run(), read by a fresh client-side invocation object (another app object for SQLite); SUCCESS must come with an equal value (type-, NaN-, signed-zero-aware), FAILED with the same exception class and args; at REGISTERED and PENDING get_final_result must raise. Schedules: reader (status, then final result, 3-4 polls) against the worker for success / externalised success / failure / retry-then-success, all schedules with <= 2 (3) deviations, line points incl. the in-memory data store, SQL-statement points for SQLite. Crashes: in 5 scenarios (success, failure, retry, kill-and-reroute, running recovery) x 2 backends the victim dies before / after each of its backend effects; a surviving process reads status + final result of every accepted invocation at the crash instant and again after recovery and drain.",
         note="The recursive value domain per serializer is explored in C15; this check fixes a catalogue and varies the path. A value returned by get_final_result after a non-final status read is judged against the status re-read afterwards (finals are absorbing).",
         design_ref="§2 C05",
     ),
@@ -156,8 +156,8 @@ CHECKS["C18"] = dict(
 CHECKS["C13"] = dict(
     engine="bfs+sched+enum",
     technique="explicit-state BFS over occurrence histories per trigger configuration on both trigger stores against a reference multiset model + deviation-bounded schedule exploration of concurrent trigger-loop iterations + exhaustive cron poll-sequence enumeration against an independent brute-force cron evaluator",
-    text="Occurrences: 45 trigger configurations (every 1-3 subset of {event e1, event e2, status, result, exception}, single / OR / AND) registered through the public decorator path; BFS (depth 4-5, thorough 6-7) over emit(e1,1|2), emit(e2,1), a real source invocation finishing ok / failing, trigger_loop_iteration, in three alphabets (full; at most one pending occurrence per condition; additionally one exception per history) on the in-memory and SQLite stores; launches (multiset of argument dicts of the target task) and remaining valid conditions compared with a model written from the property text. Schedules: two concurrent loop iterations (+ a concurrent emit) over 7 scenarios, memory (one shared trigger object, line points in mem_trigger/base_trigger) and SQLite (one app object per process, statement points), <= 1-2 (2-3) deviations: exactly one launch per occurrence. Cron part: see vf/props/c13_cron.py (expression family x window x min interval x poll sequences vs an independent evaluator; concurrent cron polls).",
-    note="Status occurrences restricted to final statuses. Five recorded findings: several pending occurrences of one condition launch once (4 kinds), OR launches share the first context's arguments. KeyError out of a concurrent loop iteration's clean-up (launches stay correct) is counted, not judged.",
+    text="Occurrences: 45 trigger configurations (every 1-3 subset of {event e1, event e2, status, result, exception}, single / OR / AND) registered through the public decorator path; BFS (depth 4-5, thorough 6-7) over emit(e1,1|2), emit(e2,1), a real source invocation finishing ok / failing, trigger_loop_iteration, in three alphabets (full; at most one pending occurrence per condition; additionally one exception per history) on the in-memory and SQLite stores; launches (multiset of argument dicts of the target task) and remaining valid conditions compared with a model written from the property text. Schedules: two concurrent loop iterations (+ a concurrent emit) over 7 scenarios, memory (one shared trigger object, line points in mem_trigger/base_trigger) and SQLite (one app object per process, statement points), <= 1-2 (2-3) deviations: exactly one launch per occurrence. Cron: the real CronCondition evaluated over all poll sequences (BFS over (poll second, last firing), gaps 10-300 s, 6 (thorough 14) expressions x window x min interval x lenient/strict) against an independent brute-force evaluator of the five cron fields; the same through the trigger stores (memory; SQLite with two runner images and a restart operation); two concurrent cron polls under the controlled scheduler (first-ever / later firing, frozen / ticking clock): exactly one launch per tick.",
+    note="Status occurrences restricted to final statuses. Seven recorded findings: several pending occurrences of one condition launch once (4 kinds), OR launches share the first context's arguments, first-ever cron firing under two concurrent runners launches twice on both stores (None = 'no expectation' in the store interface). A poll is attributed to the latest scheduled minute <= poll time (no catch-up of skipped ticks demanded). KeyError out of a concurrent loop iteration's clean-up (launches stay correct) is counted, not judged.",
     design_ref="§2 C13",
 )
 
